@@ -225,6 +225,7 @@ func RInv(p *parser, top []any) bool {
 //@   lemma pushlit before "p.stack = append(p.stack, lit)": reduce.LemmaNTokPrefix(append(p.stack, lit), p.stack, len(p.stack)); expr.LemmaLeafParsed(reduce.E(lit))
 //@   lemma pushtok before "p.stack = append(p.stack, tok)": reduce.LemmaNTokPrefix(append(p.stack, tok), p.stack, len(p.stack))
 //@   assert implicit-and-shiftable before "p.stack = append(p.stack, implAnd)": p.shouldShift(implAnd)
+//@   assert implicit-token-is-and before "p.stack = append(p.stack, implAnd)": implAnd.Typ == lex.TAnd
 //@   assert operand-follows-token before "p.stack = append(p.stack, lit)": len(p.stack) == 0 || reduce.IsTok(p.stack[len(p.stack)-1])
 
 // ParsedTree: the tree Parse returns for an input (nil when it fails).
